@@ -16,10 +16,10 @@ Definition prog_median_filter_unmasked_minmax : expr :=
 Example median_filter_unmasked_minmax_rejected : accepts prog_median_filter_unmasked_minmax = false.
 Proof. vm_compute. reflexivity. Qed.
 
-(* regional_maximum_default:  Select (Glob one_pixel_per_component(edt,label,rank_order,maximum_position) [Select (Pw not [Loc 1 has_greater_neighbour (Img)]) (ErodeP 1 (MaskE)) (FalseC)]) (Glob any [Select (Pw not [Loc 1 has_greater_neighbour (Img)]) (ErodeP 1 (MaskE)) (FalseC)]) (Select (Pw not [Loc 1 has_greater_neighbour (Img)]) (ErodeP 1 (MaskE)) (FalseC)) *)
-Definition prog_regional_maximum_default : expr :=
+(* regional_maximum_unmasked_ties:  Select (Glob one_pixel_per_component(edt,label,rank_order,maximum_position) [Select (Pw not [Loc 1 has_greater_neighbour (Img)]) (ErodeP 1 (MaskE)) (FalseC)]) (Glob any [Select (Pw not [Loc 1 has_greater_neighbour (Img)]) (ErodeP 1 (MaskE)) (FalseC)]) (Select (Pw not [Loc 1 has_greater_neighbour (Img)]) (ErodeP 1 (MaskE)) (FalseC)) *)
+Definition prog_regional_maximum_unmasked_ties : expr :=
   (Select (Glob 11 [(Select (Pw 2 [(Loc 1 12 Img)]) (ErodeP 1 MaskE) FalseC)]) (Glob 13 [(Select (Pw 2 [(Loc 1 12 Img)]) (ErodeP 1 MaskE) FalseC)]) (Select (Pw 2 [(Loc 1 12 Img)]) (ErodeP 1 MaskE) FalseC)).
-Example regional_maximum_default_rejected : accepts prog_regional_maximum_default = false.
+Example regional_maximum_unmasked_ties_rejected : accepts prog_regional_maximum_unmasked_ties = false.
 Proof. vm_compute. reflexivity. Qed.
 
 (* median_filter:  Select (Pw copy [Img]) (Glob all [Pw not [MaskE]]) (Select (Glob take [Glob rank_order.translation [Glob gather [Select (Img) (MaskE) (FalseC); MaskE]]; Glob _filter.median_filter [Select (Glob scatter [Select (Glob rank_order.ranks [Glob gather [Select (Img) (MaskE) (FalseC); MaskE]]) (Glob needs_ranking [Glob gather [Select (Img) (MaskE) (FalseC); MaskE]]) (Glob gather [Select (Img) (MaskE) (FalseC); MaskE]); MaskE]) (MaskE) (Const<zeros_uint8>); Pw ascontiguousarray [MaskE]]]) (Glob needs_ranking [Glob gather [Select (Img) (MaskE) (FalseC); MaskE]]) (Glob _filter.median_filter [Select (Glob scatter [Select (Glob rank_order.ranks [Glob gather [Select (Img) (MaskE) (FalseC); MaskE]]) (Glob needs_ranking [Glob gather [Select (Img) (MaskE) (FalseC); MaskE]]) (Glob gather [Select (Img) (MaskE) (FalseC); MaskE]); MaskE]) (MaskE) (Const<zeros_uint8>); Pw ascontiguousarray [MaskE]])) *)
@@ -166,9 +166,9 @@ Definition prog_convex_hull_transform : expr :=
 Example convex_hull_transform_ok : accepts prog_convex_hull_transform = true.
 Proof. vm_compute. reflexivity. Qed.
 
-(* regional_maximum:  Select (Pw not [Loc 1 has_greater_neighbour (Img)]) (ErodeP 1 (MaskE)) (FalseC) *)
+(* regional_maximum:  Select (Glob one_pixel_per_component(edt,label,rank_order,maximum_position) [Select (Select (Pw not [Loc 1 has_greater_neighbour (Img)]) (ErodeP 1 (MaskE)) (FalseC)) (MaskE) (FalseC)]) (Glob any [Select (Select (Pw not [Loc 1 has_greater_neighbour (Img)]) (ErodeP 1 (MaskE)) (FalseC)) (MaskE) (FalseC)]) (Select (Select (Pw not [Loc 1 has_greater_neighbour (Img)]) (ErodeP 1 (MaskE)) (FalseC)) (MaskE) (FalseC)) *)
 Definition prog_regional_maximum : expr :=
-  (Select (Pw 2 [(Loc 1 12 Img)]) (ErodeP 1 MaskE) FalseC).
+  (Select (Glob 11 [(Select (Select (Pw 2 [(Loc 1 12 Img)]) (ErodeP 1 MaskE) FalseC) MaskE FalseC)]) (Glob 13 [(Select (Select (Pw 2 [(Loc 1 12 Img)]) (ErodeP 1 MaskE) FalseC) MaskE FalseC)]) (Select (Select (Pw 2 [(Loc 1 12 Img)]) (ErodeP 1 MaskE) FalseC) MaskE FalseC)).
 Example regional_maximum_ok : accepts prog_regional_maximum = true.
 Proof. vm_compute. reflexivity. Qed.
 
@@ -290,6 +290,12 @@ Definition prog_skeletonize : expr :=
 Example skeletonize_ok : accepts prog_skeletonize = true.
 Proof. vm_compute. reflexivity. Qed.
 Example skeletonize_restores : restores_outside prog_skeletonize = true.
+Proof. vm_compute. reflexivity. Qed.
+
+(* regional_maximum_ties_are_ok:  Select (Select (Pw not [Loc 1 has_greater_neighbour (Img)]) (ErodeP 1 (MaskE)) (FalseC)) (MaskE) (FalseC) *)
+Definition prog_regional_maximum_ties_are_ok : expr :=
+  (Select (Select (Pw 2 [(Loc 1 12 Img)]) (ErodeP 1 MaskE) FalseC) MaskE FalseC).
+Example regional_maximum_ties_are_ok_ok : accepts prog_regional_maximum_ties_are_ok = true.
 Proof. vm_compute. reflexivity. Qed.
 
 Definition listed_progs : list expr :=
